@@ -173,6 +173,7 @@ class World:
         self.wlog: list[tuple[int, str, int | None, float | None]] = []  # (wseq, loc, ver, mtime)
         self.fault_w: list[tuple[int, str]] = []  # (wseq, kind) delete/unavail events
         self.cur_loop = None
+        self.trace: list = []
 
     def count(self, k: str, n: int = 1) -> None:
         self.counters[k] = self.counters.get(k, 0) + n
@@ -296,6 +297,7 @@ class World:
 
     def take(self) -> list[Lookup]:
         l, self.lookups = self.lookups, []
+        self.trace.append([lk.brief() for lk in l])
         return l
 
     # ---------------------------------------------------------- judging
@@ -547,6 +549,7 @@ def do_render(w: World, op: dict, t, twin):
             seen[lk.name] = lk.served
     with w.with_clone(stale):
         exp = canon_call(twin.render, **w.data_for(d, "ref"))
+    w.trace.append([out, exp])
     if out != exp:
         raise Violation("output_mismatch", got=out, expected=exp,
                         lookups=[l.brief() for l in lookups])
@@ -625,6 +628,7 @@ def do_par(w: World, op: dict):
     if out[0] != "ok":
         raise Violation("batch_failed", outcome=out)
     lookups = w.take()
+    w.trace.append(sorted(results.items()))
     faults = w.fault_w[fw0:]
     w.count("par_batches")
     by_task: dict[str, list[Lookup]] = {}
@@ -863,6 +867,7 @@ def execute(plan: dict) -> dict:
         + sum(v for k, v in c.items() if k.startswith("stale_served:")) >= 1)
     res = {
         "status": status,
+        "trace": digest(w.trace),
         "counters": c,
         "sim_seconds": w.clock.advanced,
         "digest": digest([plan["cfg"], plan["init"], plan["ops"], segs.decisions]),
